@@ -212,3 +212,25 @@ func checkMaxRestartsOpt(w *World, r *Report, rule string) {
 	r.Check(g.Once(st), rule, "WithMaxRestarts:stores-n", "WithMaxRestarts(n) sets Opts.MaxRestarts = n on every path (0 included)", w.fnPos(fn),
 		"some values of n (e.g. 0) are ignored and the default budget applies: an actor spawned with MaxRestarts(0) is restarted")
 }
+
+// role resolution (and the typestate run inside it) is cached per loaded program
+var procRolesCache = map[*World]*procRoles{}
+var inboxRolesCache = map[*World]*inboxRoles{}
+
+func (w *World) findProcRoles() *procRoles {
+	if p, ok := procRolesCache[w]; ok {
+		return p
+	}
+	p := w.findProcRolesUncached()
+	procRolesCache[w] = p
+	return p
+}
+
+func (w *World) findInboxRoles() *inboxRoles {
+	if p, ok := inboxRolesCache[w]; ok {
+		return p
+	}
+	p := w.findInboxRolesUncached()
+	inboxRolesCache[w] = p
+	return p
+}
